@@ -135,8 +135,8 @@ def _redundant_subst(e) -> bool:
         return _redundant_subst(e[1]) or _redundant_subst(e[2])
     if k in ('ex', 'mu'):
         return _redundant_subst(e[2])
-    if (k == 'es' and e[3] == tb.ev(e[2])) or (k == 'ss' and e[3] == tb.sv(e[2])):
-        return True
+    if (k == 'es' and (e[3] == tb.ev(e[2]) or tb.d_e_fresh(e[1], e[2]))) or (k == 'ss' and (e[3] == tb.sv(e[2]) or tb.d_s_fresh(e[1], e[2]))):
+        return True      # the document's notion: the plug is the variable itself, or the variable is fresh in what is substituted into
     return _redundant_subst(e[1]) or _redundant_subst(e[3])
 
 
